@@ -15,6 +15,9 @@ ids = sys.argv[1:] or sorted(os.listdir(os.path.join(V, 'seeded')))
 head = sh(['git', '-C', '/repo', 'rev-parse', '--short', 'HEAD'])[1].strip()
 for i in ids:
     patch = os.path.join(V, 'seeded', i, 'patch.diff')
+    import json as _json
+    if _json.load(open(os.path.join(V, 'seeded', i, 'meta.json'))).get('retired'):
+        continue                      # (kept as stored, see meta.json)
     if sh(['git', '-C', '/repo', 'apply', '--check', patch])[0] == 0:
         continue
     wt = tempfile.mkdtemp(prefix='rebase_', dir='/tmp'); os.rmdir(wt)
